@@ -109,6 +109,16 @@ def r2_precision(ctx, chk, rule="C04.2"):
     if tc["thr_store"] != "threshold":
         chk.violation(rule, tc["where"], "self.threshold is `%s`, not the constructor's threshold" % tc["thr_store"],
                       expected="self.threshold = threshold", found=tc["thr_store"], construct="Solver.__init__ threshold store")
+    # the precision / threshold / state list of a solver are fixed at construction
+    for fld in ("floor", "threshold", "state_list"):
+        from .C01 import field_writers
+        ws = [(g, n) for g, n in field_writers(ctx, fld) if attr_path(n.targets[0] if isinstance(n, ast.Assign) else n.target) == "self." + fld
+              and g.cls is not None and g.cls.name == "Solver"]
+        outside = [(g, n) for g, n in ws if g.name != "__init__"]
+        if outside:
+            g, n = outside[0]
+            chk.violation(rule, g.where(n), "`%s` changes the solver's %s after construction: strategy extraction and value iteration no longer use one precision / state list" % (norm_stmt(n), fld),
+                          expected="Solver.%s assigned only in __init__" % fld, found=g.short, construct="%s writes Solver.%s" % (g.short, fld))
     # both call sites pass self.floor (and the solver's own state list)
     for q in ("tad.py::Solver._get_reachability_strategies",):
         _call_sites_pass_floor(ctx, chk, rule, q, ("get_best_strategies_reachability", "get_worst_strategies_reachability"))
